@@ -208,7 +208,7 @@ func TestCheck(t *testing.T) {
 		run.Note("first_touch_of_an_expired_key_by_operation", sh.firstTouch)
 		run.Finish(t)
 	})
-	run.Rule("(i) first-toucher matrix: 6 ways to write a short-lived record x 4 unrelated interludes x 3 clock advances x 17 first touchers x 9 second touchers; (ii) waiter parked while the record is alive, clock advanced past the expiry; (iii)/(iv) every sequence over 23-24 operation instances (writes with short/long/no/past expiry on 2 keys, all readers, Advance 1/3/2000 units) to the depth bound plus seeded random sequences; each followed by a full observation (Get, GetMany, ListKeys, Create). Compared call by call with the contract model with a logical clock. distinct = distinct logical store states (presence, value, remaining lifetime, last write) reached")
+	run.Rule("(i) first-toucher matrix: 6 ways to write a short-lived record x 4 unrelated interludes x 3 clock advances x 17 first touchers x 9 second touchers; (ii) 1-3 waiters parked while the record is alive, 0..n-1 of them (the earliest) give up, clock advanced past the expiry; (iii)/(iv) every sequence over 23-24 operation instances (writes with short/long/no/past expiry on 2 keys, all readers, Advance 1/3/2000 units) to the depth bound plus seeded random sequences; each followed by a full observation (Get, GetMany, ListKeys, Create). Compared call by call with the contract model with a logical clock. distinct = distinct logical store states (presence, value, remaining lifetime, last write) reached")
 	run.Assume("expirations lie at half clock units and the clock moves in whole units, so the exact expiry instant is never sampled")
 	run.Assume("inmem: testing/synctest virtual clock; Redis: miniredis, whose clock is the sum of FastForward calls")
 
@@ -353,8 +353,10 @@ func TestChild(t *testing.T) {
 				for nw := 1; nw <= 3; nw++ {
 					res.Evals++
 					res.Counters["parked_waiter_scenarios_inmem"]++
-					if v := parkedWaiterInmem(exp, nw); v != nil {
-						res.Violation(v.Sig, v.What, map[string]any{"scenario": "parked-waiter", "backend": "inmem", "exp": exp, "waiters": nw})
+					for leave := 0; leave < nw; leave++ {
+						if v := parkedWaiterInmem(exp, nw, leave); v != nil {
+							res.Violation(v.Sig, v.What, map[string]any{"scenario": "parked-waiter", "backend": "inmem", "exp": exp, "waiters": nw, "leave_before_expiry": leave})
+						}
 					}
 				}
 			}
@@ -427,7 +429,7 @@ func randomCase(backend string, seed int64, i int) kase {
 // parkedWaiterInmem: nw waiters park on a live record (current version); the clock then passes the
 // expiry; after quiescence all of them must have returned ErrNotExist and the waiter table is empty.
 // Runs inside a bubble.
-func parkedWaiterInmem(exp, nw int) *kvmodel.Vio {
+func parkedWaiterInmem(exp, nw, leave int) *kvmodel.Vio {
 	s := inmem.New()
 	ctx, cancel := context.WithCancel(context.Background())
 	defer cancel()
@@ -437,13 +439,32 @@ func parkedWaiterInmem(exp, nw int) *kvmodel.Vio {
 		return &kvmodel.Vio{Sig: "inmem/Put/error", What: err.Error()}
 	}
 	res := make(chan error, nw)
+	var leavers []context.CancelFunc
 	for i := 0; i < nw; i++ {
-		go func() { res <- s.WaitForVersionChange(ctx, "a", rec.Version) }()
+		wctx := ctx
+		if i < leave { // the first waiters (the ones that registered first) will give up before the expiry
+			c, cancelW := context.WithCancel(ctx)
+			wctx = c
+			leavers = append(leavers, cancelW)
+		}
+		go func() {
+			err := s.WaitForVersionChange(wctx, "a", rec.Version)
+			if wctx != ctx && errors.Is(err, context.Canceled) {
+				return // a leaver
+			}
+			res <- err
+		}()
+		synctest.Wait() // registration order = start order
 	}
 	synctest.Wait()
 	if len(res) != 0 {
 		return &kvmodel.Vio{Sig: "inmem/Wait/returned-while-alive", What: fmt.Sprintf("a waiter on the current version of a live record returned %v", <-res)}
 	}
+	for _, c := range leavers {
+		c()
+	}
+	synctest.Wait()
+	nw -= leave
 	if exp > 1 { // not woken early
 		time.Sleep(time.Duration(exp-1) * kvmodel.BubbleUnit)
 		synctest.Wait()
